@@ -10,7 +10,9 @@ def build(props=None):
     import contracts.ast_ops as ao
     import contracts.functions as fu
     import contracts.sq_parser as sp
-    mods = [sd, ao, fu, sp]
+    import contracts.lexer as lx
+    import contracts.rules as ru
+    mods = [sd, ao, fu, sp, lx, ru]
     for m in mods:
         eng.contracts.update(m.contracts(eng))
     tasks = []
